@@ -18,7 +18,8 @@ CONSTANTS
     MaxAdd,         \* entries per add list / ids per remove list
     MaxLen,         \* patch applications per history
     ListLens,       \* lengths of the patch lists handed to one ApplyPatches call
-    WithJP          \* include ietf-json-patch patches in the alphabet
+    WithJP,         \* include ietf-json-patch patches in the alphabet
+    WithBroken      \* include patch objects that are no patches (no / unknown action, the action's value member missing)
 
 VARIABLES doc, len, hist
 vars == <<doc, len, hist>>
@@ -119,6 +120,8 @@ ApplyPatch(d, p) ==
       [] p.a = "remove-also-known-as" -> Applied([d EXCEPT !.aka = RemoveURIs(@, p.ids)])
       \* replace discards the whole document and installs exactly the given keys and services
       [] p.a = "replace"              -> Applied([EmptyDoc EXCEPT !.keys = p.ents, !.svcs = p.ents2])
+      \* an object that is no patch (it cannot come out of patch.FromBytes, but a caller can build it): the list fails
+      [] p.a = "broken"               -> [ok |-> FALSE, d |-> d, why |-> "broken-patch"]
       [] p.a = "ietf-json-patch"      -> LET r == ApplyJOps(d.other, p.ops) IN
                                          [ok |-> r.ok, d |-> [d EXCEPT !.other = r.o], why |-> r.why]
 
@@ -180,7 +183,11 @@ JPatches ==
                  j2 \in {x \in JOps : WellTyped(x) /\ x.op \in {"remove", "test"}}}
     ELSE {}
 
-Patches == AddKeyPatches \cup RemKeyPatches \cup AddSvcPatches \cup RemSvcPatches
+\* (the variant number rides in ids: 1 no action, 2 unknown action, 3 replace / 4 add-public-keys / 5 ietf-json-patch
+\* without their value member - 4 with another action's member instead -, 6 remove-services with uris instead of ids)
+BrokenPatches == IF WithBroken THEN {P("broken", <<>>, <<>>, <<v>>, <<>>) : v \in 1..6} ELSE {}
+
+Patches == BrokenPatches \cup AddKeyPatches \cup RemKeyPatches \cup AddSvcPatches \cup RemSvcPatches
              \cup AddAkaPatches \cup RemAkaPatches \cup ReplacePatches \cup JPatches
 
 \* single patches, plus (when ListLens allows) two-patch lists whose second patch may fail or
